@@ -558,7 +558,7 @@ theorem covered_clean (c : Cmd) (hc : Covered c) : Clean c.bytes := by
 /-- the spelling of every covered command is clean: inside the covered subset the first face of
 D16 (a `/`, `;` or `}` inside an alternative) cannot occur -/
 theorem lcovered_clean (c : Cmd) (hc : LCovered c) : Clean c.bytes := by
-  rcases lcovered_cases c hc with ⟨sm, n, rfl⟩ | ⟨n, rfl⟩ | hcov
+  rcases lcovered_cases c hc with ⟨sm, n, rfl⟩ | ⟨n, rfl⟩ | ⟨d, rfl⟩ | ⟨l, a, d, rfl⟩ | hcov
   · apply clean_of_range
     intro x hx
     have hnum : ∀ n : Num, x ∈ n.bytes → (33 ≤ x ∧ x < 128) ∧ x ≠ 47 ∧ x ≠ 59 ∧ x ≠ 125 := fun n h => by
@@ -581,6 +581,21 @@ theorem lcovered_clean (c : Cmd) (hc : LCovered c) : Clean c.bytes := by
     rcases hx with rfl | hx
     · omega
     · have := num_bytes_range n x hx; omega
+  · apply clean_of_range
+    intro x hx
+    simp only [Cmd.bytes, List.mem_cons] at hx
+    rcases hx with rfl | hx
+    · omega
+    · have := dur_bytes_range d x hx; omega
+  · apply clean_of_range
+    intro x hx
+    have hl : l < 8 := hc
+    simp only [Cmd.bytes, List.mem_cons, List.mem_append] at hx
+    rcases hx with (rfl | rfl | hx) | hx
+    · omega
+    · unfold MmlMeaning.letterByte; omega
+    · cases a <;> simp [Acc.bytes] at hx <;> omega
+    · have := dur_bytes_range d x hx; omega
   · exact covered_clean c hcov
 
 /-- an alternative made of blanks, bars and covered commands is clean -/
